@@ -38,11 +38,19 @@ func shuffleValidators(
 ) ([]*node.Node, error) {
 	switch beaconParameters.Backend { // Used so that we can break to fallback.
 	case beacon.BackendVRF:
+		// Only validators that have submitted a proof can be elected below, and at most
+		// MaxValidatorsPerEntity of them per entity, so count those.
 		var numValidatorsWithPi int
+		numEntityValidatorsWithPi := make(map[signature.PublicKey]int)
 		for _, n := range nodes {
-			if vrf.Pi[n.ID] != nil {
-				numValidatorsWithPi++
+			if vrf.Pi[n.ID] == nil {
+				continue
 			}
+			if numEntityValidatorsWithPi[n.EntityID] >= schedulerParameters.MaxValidatorsPerEntity {
+				continue
+			}
+			numEntityValidatorsWithPi[n.EntityID]++
+			numValidatorsWithPi++
 		}
 		if numValidatorsWithPi < schedulerParameters.MinValidators {
 			// If not enough validators have submitted proofs to
